@@ -1,7 +1,9 @@
 package wit
 
 import (
+	"maps"
 	"net/http"
+	"slices"
 	"strings"
 
 	"github.com/nyaruka/gocommon/httpx"
@@ -44,7 +46,10 @@ func (s *service) Classify(env envs.Environment, input string, logHTTP flows.HTT
 		result.Intents[i] = flows.ExtractedIntent{Name: intent.Name, Confidence: intent.Confidence}
 	}
 
-	for nameAndRole, entity := range response.Entities {
+	// entities are keyed by name:role and several roles can share a name, so go through them in key order to
+	// not depend on map iteration order
+	for _, nameAndRole := range slices.Sorted(maps.Keys(response.Entities)) {
+		entity := response.Entities[nameAndRole]
 		name := strings.Split(nameAndRole, ":")[0]
 		entities := make([]flows.ExtractedEntity, 0, len(entity))
 		for _, candidate := range entity {
